@@ -115,11 +115,18 @@ func (env *SpecEnv) btreeSpec(name string, n *ast.CallExpr) (SV, bool) {
 	case "cachetag":
 		return intSV(ufun("ghost.cachetag", []string{SInt}, SInt, env.eval(n.Args[0]).(*PtrV).Addr)), true
 	case "old":
-		if env.e.entry == nil {
+		o := *env
+		switch {
+		case env.oldSt != nil:
+			o.st = env.oldSt
+			if env.oldFr != nil {
+				o.fr = env.oldFr
+			}
+		case env.e.entry != nil:
+			o.st = env.e.entry
+		default:
 			panic("spec: old() without an entry state")
 		}
-		o := *env
-		o.st = env.e.entry
 		return o.eval(n.Args[0]), true
 	}
 	return nil, false
